@@ -29,7 +29,8 @@ CONSTANTS
   Kinds,     \* tamper kinds offered: "unsigned","missigned","nokey","payload","wrongkey","foreign"
   MaxBad,    \* bound on the number of tampered copies
   PubOn,     \* replicas that may publish their manifest (ToMultihash) ({} = never)
-  WriteFaults \* TRUE: the store may refuse the block write of an append
+  WriteFaults,\* TRUE: the store may refuse the block write of an append
+  ForkOn     \* replicas that may be rebuilt from another replica's entries and heads (NewLog with options) ({} = never)
 
 VARIABLES
   U,      \* sequence of entry records (index = creation order = model CID)
@@ -158,6 +159,24 @@ SetIdentity(r, w) ==
   /\ UNCHANGED <<U, ents, heads, nidx, pure, bad>>
 
 (***************************************************************************)
+(* Fork: NewLog with LogOptions.Entries = src.GetEntries() and             *)
+(* LogOptions.Heads = src.Heads() (log.go l.103-176), as the loaders and   *)
+(* any caller holding a log may do.  The new instance replaces replica r;  *)
+(* it keeps r's identity and access controller, indexes every next of the  *)
+(* given entries and starts its clock at the newest head.                  *)
+(***************************************************************************)
+Fork(r, s) ==
+  /\ CanOp /\ r \in ForkOn /\ r # s /\ Lid[r] = Lid[s] /\ ents[s] # {}
+  /\ bad[r] = {} /\ bad[s] = {}
+  /\ ents'  = [ents EXCEPT ![r] = ents[s]]
+  /\ heads' = [heads EXCEPT ![r] = SortIds(U, Fn, heads[s], TRUE)]      \* given in Heads() order
+  /\ nidx'  = [nidx EXCEPT ![r] = NextsOf(U, ents[s])]
+  /\ clk'   = [clk EXCEPT ![r] = MaxTimeOf(U, heads[s], 0)]
+  /\ pure'  = [pure EXCEPT ![r] = pure[s]]
+  /\ hist'  = Append(hist, <<"F", r, s>>)
+  /\ UNCHANGED <<U, ident, bad>>
+
+(***************************************************************************)
 (* Publish (log_io.go toMultihash): writes the manifest block {id, heads}. *)
 (* It changes no replica; the store only grows (C17 looks at the writes of *)
 (* the real run).  An empty log cannot be published (error).               *)
@@ -210,6 +229,7 @@ Iterate(r, o) ==
   /\ UNCHANGED core
 
 Next ==
+  \/ \E r \in ForkOn, s \in R : Fork(r, s)
   \/ \E r \in PubOn : Publish(r)
   \/ \E r \in Evil, k \in Kinds : \E x \in ents[r] : Tamper(r, x, k)
   \/ \E r \in IterOn : \E o \in IterOptions(r) : Iterate(r, o)
@@ -286,10 +306,12 @@ C01_NoOpJoins ==
         (r = s \/ Lid[r] # Lid[s] \/ ents[s] = {} \/ ents[s] \subseteq ents[r]) /\ pure[r] /\ pure[s]
           => ents'[r] = ents[r] /\ SeqRange(heads'[r]) = HeadSet(r)]_vars
 
+\* (a Fork replaces replica r by a new log instance)
+Forked(r) == hist' # hist /\ hist'[Len(hist')][1] = "F" /\ hist'[Len(hist')][2] = r
 C05_EntriesMonotone ==
-  [][\A r \in R : pure'[r] => ents[r] \subseteq ents'[r]]_vars
+  [][\A r \in R : pure'[r] /\ ~Forked(r) => ents[r] \subseteq ents'[r]]_vars
 C05_ValuesSubsequence ==
-  [][\A r \in R : pure'[r] /\ StrictOn(U', Fn, ents'[r]) =>
+  [][\A r \in R : pure'[r] /\ ~Forked(r) /\ StrictOn(U', Fn, ents'[r]) =>
         IsSubsequence(Vals(r), ValuesOf(U', Fn, ents'[r], heads'[r]))]_vars
 C05_OthersUntouched ==
   [][\A r \in R : hist' # hist /\ hist'[Len(hist')][2] # r =>
